@@ -47,11 +47,19 @@ def scenarios(rng, n):
                               dict(sep="recipe", sepChar=[0x21D2], sepRecipe=dict(len=3, allow=0, require=0, exclude=0, allowChars=rng.sample(CJK + GREEK, 4), requireSets=[], excludeChars=[])),
                               dict(sep="custom0", sepChar=o("+"), sepRecipe=dict(len=2, allow=0, require=0, exclude=0, allowChars=rng.sample(CJK, 3), requireSets=[], excludeChars=[])),
                               dict(sep="SFDigits2", sepChar=[0x2192, 0x2192]),
+                              # caller-written separator functions whose entropy statement is NaN, infinite or negative (whatever the library
+                              # thinks of the number, it says nothing about the password)
+                              dict(sep=rng.choice(["customnan", "custominf", "customneg"]), sepChar=[], sepVals=[rng.sample(CJK + GREEK, 3)]),
                               # a caller-written separator that is random but claims no entropy
                               dict(sep="custom0", sepChar=[], sepRecipe=dict(len=3, allow=0, require=0, exclude=0, allowChars=rng.sample(CJK + GREEK, 4), requireSets=[], excludeChars=[]))])
             wl = dict(words=[o(w) for w in words], nolist=0, len=rng.randint(1, 5), cap=rng.choice(wlfam.SCHEMES))
             wl.update(sep)
             out.append(dict(kind="wl", wl=wl, maxTrials=0, failRateOne=0, mode="paths", paths=4, maxLeaves=0, tag="distinctive-words", reps=0))
+    # more distinct words than a bounded per-process table may hold (1024, 4096): 3000 distinctive words, all capitalised, long passwords
+    big = ["".join(chr(c) for c in (PUA[i % 40], GREEK[(i // 40) % 12], PUA[(i * 7) % 40], 0x61 + i % 26, PUA[(i // 480) % 40])) for i in range(3000)]
+    for cap in ("all", "random"):
+        wl = dict(words=[o(w) for w in big], nolist=0, len=650, cap=cap, sep="char", sepChar=[0x2192])
+        out.append(dict(kind="wl", wl=wl, maxTrials=0, failRateOne=0, mode="paths", paths=4, maxLeaves=0, tag="many-distinct-words", reps=0))
     return out
 
 
